@@ -240,7 +240,9 @@ fn renamings(p: &Program, query: &T) -> Vec<(&'static str, Program)> {
         .collect();
     // every clause gets names of its own (no name occurs in two clauses, nor in the query)
     let r4: Program = p.iter().enumerate().map(|(ci, c)| per_clause(c, &|i, _| format!("$C{}v{}", ci, i))).collect();
-    vec![("suffix", r1), ("query-names", r2), ("swap-xy", r3), ("all-distinct", r4)]
+    // names that look like printed variables (`$V_1`, `$V_2`); this variant is built through the text parser
+    let r5: Program = p.iter().map(|c| per_clause(c, &|i, _| format!("$V_{}", i + 1))).collect();
+    vec![("suffix", r1), ("query-names", r2), ("swap-xy", r3), ("all-distinct", r4), ("numbered@text", r5)]
 }
 
 pub fn worker(prop: &str, tier: &str) {
@@ -397,8 +399,43 @@ pub fn worker(prop: &str, tier: &str) {
 
             // C11: the same history under alpha-renamings of the clauses
             if prop == "C11" && im.panic.is_none() {
+                let same_run = |a: &ImplRun, b: &ImplRun| {
+                    a.steps.len() == b.steps.len()
+                        && b.panic.is_none()
+                        && a.steps.iter().zip(b.steps.iter()).all(|(x, y)| {
+                            x.out == y.out
+                                && match (&x.ans, &y.ans) {
+                                    (None, None) => true,
+                                    (Some(p), Some(q)) => variant_vec(std::slice::from_ref(p), std::slice::from_ref(q), false),
+                                    _ => false,
+                                }
+                        })
+                };
+                // the text-built variant is only meaningful where the source text says the same as the
+                // API-built program (not((a, b)) and unquoted formats with brackets do not survive it)
+                let text_faithful = match build_kb_text(&case.prog, false) {
+                    Ok(kbt) => {
+                        let imt = run_next(w, &kbt, &case.prog, q, &opts);
+                        same_run(&im, &imt)
+                    }
+                    Err(_) => false,
+                };
                 for (rname, rp) in renamings(&case.prog, q) {
-                    let kb2 = build_kb(&rp);
+                    if rname.ends_with("@text") && !text_faithful {
+                        w.count("skipped.text-form-not-faithful", 1);
+                        continue;
+                    }
+                    let kb2 = if rname.ends_with("@text") {
+                        match build_kb_text(&rp, false) {
+                            Ok(k) => k,
+                            Err(_) => {
+                                w.count("skipped.renamed-text-rejected", 1);
+                                continue;
+                            }
+                        }
+                    } else {
+                        build_kb(&rp)
+                    };
                     let im2 = run_next(w, &kb2, &rp, q, &opts);
                     w.count("renamed_histories", 1);
                     let same = im2.steps.len() == im.steps.len()
